@@ -205,7 +205,7 @@ def mk_xcorr_case(which, data):
 def cases(rng, tier, seed):
     import common
     nr = common.np_rng(PID, seed, 'arrays')
-    k = {'quick': 1, 'thorough': 12}[tier]
+    k = {'quick': 4, 'thorough': 40}[tier]
     nmax = 64 if tier == 'quick' else 256
     out = []
     # --- covariance family
@@ -272,7 +272,12 @@ def cases(rng, tier, seed):
         n = rng.choice([2, 3, 5, rng.randint(2, lmax), rng.randint(2, lmax)])
         fn = rng.choice(['entropy', 'entropy', 'condent', 'mi', 'ecc', 'te'])
         nv = rng.choice([1, 2, 3]) if fn == 'entropy' else 2
+        rare = rng.random() < 0.12
+        if rare:      # long sequences with a symbol that occurs once (p < 0.01): rare cells must count
+            n = rng.randint(120, 200)
         seqs = [seq_gen(rng, n, rng.randint(1, 6)) for _ in range(nv)]
+        if rare:
+            seqs[0][rng.randrange(n)] = 77
         if nv > 1 and rng.random() < 0.25:      # dependent variables
             seqs[1] = [(v * 7) % 3 for v in seqs[0]] if rng.random() < 0.5 else list(seqs[0])
         if fn == 'ecc' and len(set(seqs[0])) == 1 and len(set(seqs[1])) == 1:
